@@ -1,4 +1,5 @@
 import Just.Json
+import Just.Model.Quote
 open Lean Just
 
 /-- first entry whose key occurs in `k` (the fake shell's matching rule) -/
@@ -21,6 +22,24 @@ def handleRun (j : Json) : Except String Json := do
   let (evs, code) := Run.runMain prog cfg env invs
   return Json.mkObj [("events", toJson evs), ("exit", toJson code)]
 
+def handleSignals (j : Json) : Except String Json := do
+  let cmds : List Signals.Cmd ← fromJson? (← j.getObjVal? "cmds")
+  let steps : List Signals.Step ← fromJson? (← j.getObjVal? "steps")
+  let record : Bool ← fromJson? (← j.getObjVal? "record")
+  let s := Signals.run record (Signals.init cmds) steps
+  return Json.mkObj [("spawned", toJson s.spawned), ("exited", toJson s.exited),
+    ("forwarded", toJson s.forwarded), ("running", toJson s.running.isSome)]
+
+def handleQuote (j : Json) : Except String Json := do
+  let s ← j.getObjValAs? String "s"
+  return Json.mkObj [("q", String.ofList (Quote.quote s.toList))]
+
+def handleShSplit (j : Json) : Except String Json := do
+  let s ← j.getObjValAs? String "s"
+  match Quote.shSplit s.toList with
+  | none => return Json.mkObj [("words", Json.null)]
+  | some ws => return Json.mkObj [("words", toJson (ws.map String.ofList))]
+
 def handle (line : String) : Json :=
   match Json.parse line with
   | .error e => Json.mkObj [("fatal", s!"parse: {e}")]
@@ -29,6 +48,9 @@ def handle (line : String) : Json :=
       let op ← j.getObjValAs? String "op"
       match op with
       | "run" => handleRun j
+      | "signals" => handleSignals j
+      | "quote" => handleQuote j
+      | "shsplit" => handleShSplit j
       | _ => throw s!"unknown op {op}"
     match r with
     | .ok v => v
